@@ -113,6 +113,8 @@ def tlc(module, cfg=None, workers=1, timeout=1800, env=None, xss='512m', xmx='4g
     """Run TLC on spec/<module>.tla. Never raises on a model violation; raises ToolError on tool trouble."""
     os.makedirs(WORK, exist_ok=True)
     meta = tempfile.mkdtemp(prefix='tlc_%s_' % module, dir=WORK)
+    if coverage and xmx in ('3g', '4g'):
+        xmx = '8g'          # -coverage keeps per-expression counters: needs more heap
     jopts = ['-XX:+UseParallelGC', '-Xss' + xss, '-Xmx' + xmx]
     if deque:
         jopts.append('-Dtlc2.tool.queue.IStateQueue=StateDeque')
